@@ -713,7 +713,7 @@ def m_list_unhook(e, st, a, I):
     e.store(st, p, n, PTR)
 
 
-# ---------------- regex (concrete only in spike)
+# ---------------- regex: forking symbolic matcher (regexsym.py), Python re only as a fallback for concrete subjects
 REGEX = {}
 
 
@@ -722,11 +722,67 @@ def m_regex_compile(e, st, a, I):
     n = conc(e.binop("sub", last, first, 64))
     pat = cbytes(cells(e, st, first, n)).decode("latin1")
     REGEX[(this.obj, this.off)] = (pat, flags)
+    e.regex_patterns = getattr(e, "regex_patterns", set()) | {pat}
 
 
 def pyre(rx):
     pat, flags = REGEX[(rx.obj, rx.off)]
     return re.compile(pat.encode("latin1"), (re.I if flags & 1 else 0) | re.S * 0)
+
+
+def rx_decide(e, st):
+    """decision oracle for the symbolic matcher: forks the engine state (the fork re-executes the regex call)"""
+    def decide(cond):
+        if isinstance(cond, bool):
+            return cond
+        c = z3.simplify(cond)
+        if z3.is_true(c):
+            return True
+        if z3.is_false(c):
+            return False
+        k = st.known.get(c.get_id())
+        if k is not None and k[2]:
+            return k[0]
+        ct = e.sat(st, c)
+        cf = e.sat(st, z3.Not(c))
+        if ct and cf:
+            o2 = e.fork(st)
+            e.add_pc(o2, z3.Not(c))
+            o2.known[c.get_id()] = (False, c, True)
+            o2.frames[-1].ip -= 1
+            e.work.append(o2)
+            e.stats["forks"] += 1
+            e.stats["regex_forks"] = e.stats.get("regex_forks", 0) + 1
+            e.add_pc(st, c)
+            st.known[c.get_id()] = (True, c, True)
+            return True
+        if not ct and not cf:
+            raise PathEnd("infeasible")
+        st.known[c.get_id()] = (ct, c, True)
+        return ct
+    return decide
+
+
+def rx_matcher(e, st, rx):
+    from . import regexsym
+    pat, flags = REGEX[(rx.obj, rx.off)]
+    key = (pat, flags & 1)
+    cache = getattr(e, "_rxcache", None)
+    if cache is None:
+        cache = e._rxcache = {}
+    if key not in cache:
+        try:
+            cache[key] = regexsym.parse(pat)
+        except regexsym.RegexError as ex:
+            cache[key] = ex
+    ast = cache[key]
+    if isinstance(ast, Exception):
+        return None
+    return regexsym.Matcher(ast[0], ast[1], bool(flags & 1), rx_decide(e, st))
+
+
+def rx_chars(cs):
+    return [c if type(c) is int else cell_bv(c) for c in cs]
 
 
 def write_submatch(e, st, p, base, a, b, matched):
@@ -738,11 +794,27 @@ def write_submatch(e, st, p, base, a, b, matched):
 def m_regex_algo(e, st, a, I):
     first, last, mr, rx, flags, policy, match_mode = a
     n = conc(e.binop("sub", last, first, 64))
-    subj = cbytes(cells(e, st, first, n), "regex subject")
-    r = pyre(rx)
-    m = r.fullmatch(subj) if match_mode else r.search(subj)
-    ng = r.groups + 1
-    cnt = (ng + 3) if m else 3
+    cs = cells(e, st, first, n)
+    mt = rx_matcher(e, st, rx)
+    res = None
+    if mt is not None:
+        s = rx_chars(cs)
+        if match_mode:
+            r = mt.match_at(s, 0, full=True)
+            res = None if r is None else (0, r[0], r[1], mt.ngroups)
+        else:
+            r = mt.search(s)
+            res = None if r is None else (r[0], r[1], r[2], mt.ngroups)
+    else:
+        subj = cbytes(cs, "regex subject")
+        r_ = pyre(rx)
+        mm = r_.fullmatch(subj) if match_mode else r_.search(subj)
+        if mm:
+            caps = {g: mm.span(g) for g in range(1, r_.groups + 1) if mm.span(g)[0] >= 0}
+            res = (mm.start(), mm.end(), caps, r_.groups)
+        ngr = r_.groups
+    ng = (res[3] if res else (mt.ngroups if mt is not None else ngr)) + 1
+    cnt = (ng + 3) if res else 3
     old = e.load(st, mr, PTR)
     if old.obj != 0:
         m_delete(e, st, [old], None)
@@ -751,31 +823,61 @@ def m_regex_algo(e, st, a, I):
     e.store(st, P(mr, 8), P(buf, cnt * 24), PTR)
     e.store(st, P(mr, 16), P(buf, cnt * 24), PTR)
     e.store(st, P(mr, 24), first, PTR)
-    if not m:
+    if not res:
         for i in range(3):
             write_submatch(e, st, P(buf, i * 24), first, n, n, False)
         return 0
-    for g in range(ng):
-        s_, t_ = m.span(g)
-        if s_ < 0:
-            write_submatch(e, st, P(buf, g * 24), first, n, n, False)
+    b0, e0, caps, _ = res
+    write_submatch(e, st, buf, first, b0, e0, True)
+    for g in range(1, ng):
+        if g in caps:
+            write_submatch(e, st, P(buf, g * 24), first, caps[g][0], caps[g][1], True)
         else:
-            write_submatch(e, st, P(buf, g * 24), first, s_, t_, True)
+            write_submatch(e, st, P(buf, g * 24), first, n, n, False)
     write_submatch(e, st, P(buf, ng * 24), first, n, n, False)
-    write_submatch(e, st, P(buf, (ng + 1) * 24), first, 0, m.start(), m.start() != 0)
-    write_submatch(e, st, P(buf, (ng + 2) * 24), first, m.end(), n, m.end() != n)
+    write_submatch(e, st, P(buf, (ng + 1) * 24), first, 0, b0, b0 != 0)
+    write_submatch(e, st, P(buf, (ng + 2) * 24), first, e0, n, e0 != n)
     return 1
 
 
 def m_regex_replace(e, st, a, I):
     out, first, last, rx, fmt, flen, flags = a
     n = conc(e.binop("sub", last, first, 64))
-    subj = cbytes(cells(e, st, first, n), "regex subject")
+    cs = cells(e, st, first, n)
     f = cbytes(cells(e, st, fmt, conc(flen)))
-    res = pyre(rx).sub(f.replace(b"\\", b"\\\\"), subj)
+    if b"$" in f:
+        raise NotImplementedError("regex_replace format with $-references")
+    mt = rx_matcher(e, st, rx)
+    if mt is not None:
+        res = mt.replace_all(rx_chars(cs), list(f))
+        res = [c if isinstance(c, int) else ("e", c, 0) for c in res]
+    else:
+        subj = cbytes(cs, "regex subject")
+        res = list(pyre(rx).sub(f.replace(b"\\", b"\\\\"), subj))
     s = out
-    s_set(e, st, s, s_get(e, st, s) + list(res))
+    s_set(e, st, s, s_get(e, st, s) + res)
     return out
+
+
+# ---------------- std::filesystem::path (POSIX): only what is_relative_path needs
+def m_fs_noop(e, st, a, I):
+    return None
+
+
+def m_fs_list_ctor(e, st, a, I):
+    e.store(st, a[0], NULL, PTR)
+
+
+def m_fs_has_root_dir(e, st, a, I):
+    """path::has_root_directory() on POSIX: the pathname starts with '/'"""
+    s = a[0]
+    cs = s_get(e, st, s)
+    if not cs:
+        return 0
+    c = cs[0]
+    if type(c) is int:
+        return int(c == 0x2F)
+    return z3.If(cell_bv(c) == 0x2F, z3.BitVecVal(1, 1), z3.BitVecVal(0, 1)) == z3.BitVecVal(1, 1)
 
 
 # ---------------- streams
@@ -1206,6 +1308,10 @@ M3 = {
     "_ZNSt7__cxx1111basic_regexIcNS_12regex_traitsIcEEE10_M_compileEPKcS5_NSt15regex_constants18syntax_option_typeE": m_regex_compile,
     "_ZNSo5tellpEv": m_tellp, "_ZNSo5seekpESt4fposI11__mbstate_tE": m_seekp, "_ZNSo5writeEPKcl": m_write2, "_ZNSi4readEPcl": m_read2,
     "_ZNSi7getlineEPclc": m_getline, "sym_out_reset": m_out_reset, "sym_in_rewind": m_in_rewind, "sym_deep_equal": m_deep_equal, "sym_heap_disjoint": m_heap_disjoint, "sym_watch_reset": m_watch_reset, "sym_watch_count": m_watch_count, "sym_watch_get": m_watch_get, "sym_set_truncation": m_set_trunc,
+    "_ZNKSt10filesystem7__cxx114path18has_root_directoryEv": m_fs_has_root_dir,
+    "_ZNKSt10filesystem7__cxx114path5_List13_Impl_deleterclEPNS2_5_ImplE": m_fs_noop,
+    "_ZNSt10filesystem7__cxx114path14_M_split_cmptsEv": m_fs_noop,
+    "_ZNSt10filesystem7__cxx114path5_ListC1Ev": m_fs_list_ctor,
     "_ZNSt8ios_base4InitC1Ev": m_nop, "_ZNSt8ios_base4InitD1Ev": m_nop,
     "_ZSt21__throw_bad_exceptionv": m_throw("bad_exception"),
     "_ZSt20__throw_out_of_rangePKc": m_throw("out_of_range"), "_ZSt24__throw_out_of_range_fmtPKcz": m_throw("out_of_range"),
